@@ -682,6 +682,12 @@ def _r6_outer_path(ck, prog, pt, hook, inner, outer, l, kind, members, tof, want
                 terms = list(ret.args)
                 if fnm(ret) == "max" and terms and isinstance(terms[0], sp.Tuple) and all(fnm(t) == "kw_default" for t in terms[1:]):
                     terms = list(terms[0]) + terms[1:]
+                elif fnm(ret) == "max" and terms and fnm(terms[0]) == "concat" and all(fnm(t) == "kw_default" for t in terms[1:]):
+                    # max([0] + [inner(m, ...) for m in members]): the parts of the concatenation, in order
+                    parts = []
+                    for a_ in terms[0].args:
+                        parts += list(a_) if isinstance(a_, sp.Tuple) else [a_]
+                    terms = parts + terms[1:]
             if terms is not None:
                 zero = any(t == 0 or (fnm(t) == "kw_default" and t.args[0] == 0) for t in terms)
                 rest = [t for t in terms if not (t == 0 or fnm(t) == "kw_default")]
@@ -702,7 +708,7 @@ def _r6_outer_path(ck, prog, pt, hook, inner, outer, l, kind, members, tof, want
                     maximum = zero or len(rest) >= 1 and isinstance(ret, sp.Max)
                     sweep_pos = len(l.events)
         if sweep_pos is None:
-            raise AnalysisError(f"{OUTER}: the sweep over the members was not recognised for a {kind} object")
+            raise AnalysisError(f"{OUTER}: the sweep over the members was not recognised for a {kind} object (returns {str(ret)[:200]})")
         n_checked += 1
         if got_members is not None and equal_struct(got_members, members, {tof: sp.Symbol(kind)}):
             ck.ok("C06.R6", OUTER, f"{kind}: members examined = {members}", nontrivial=False)
